@@ -148,6 +148,9 @@ func c01(c *Ctx) {
 	c01R6(c)
 	c01R7(c)
 	c01R8(c)
+	// requests of one pod are serialised (shared rule): without it an ADD of a new sandbox can be
+	// handed the address a DEL of the old one is about to release
+	c04R1(c)
 }
 
 // ---------- R1 lock discipline ----------
